@@ -492,4 +492,33 @@ Proof.
   destruct (last_done None h); reflexivity.
 Qed.
 
+Lemma disciplined_of_parts : forall h t prev maxv,
+  protocol t prev maxv h ->
+  (forall r, In r h -> closed_ws uses t (r_disk r)) ->
+  (forall r, In r h -> r_version r <> None -> quiet_unedited R check uses t r) ->
+  disciplined R check uses t prev maxv h.
+Proof.
+  induction h as [|r h IH]; intros t prev maxv Hp Hc Hq; [exact I|].
+  simpl in Hp. destruct Hp as [H1 [H2 [H3 H4]]]. simpl.
+  split; [exact H1|]. split; [exact H2|]. split; [exact H3|].
+  split; [apply Hc; left; reflexivity|]. split; [apply Hq; left; reflexivity|].
+  apply IH; [exact H4 | intros r0 H0; apply Hc; right; exact H0 | intros r0 H0; apply Hq; right; exact H0].
+Qed.
+
+Lemma protocol_prefix : forall h1 h2 t prev maxv,
+  protocol t prev maxv (h1 ++ h2) -> protocol t prev maxv h1.
+Proof.
+  induction h1 as [|r h1 IH]; intros h2 t prev maxv H; [exact I|].
+  simpl in H. destruct H as [H1 [H2 [H3 H4]]]. simpl.
+  split; [exact H1|]. split; [exact H2|]. split; [exact H3|]. eapply IH; eauto.
+Qed.
+
+Lemma closed_wsb_spec t disk : closed_wsb uses t disk = true <-> closed_ws uses t disk.
+Proof.
+  unfold closed_wsb, closed_ws. rewrite forallb_forall. split.
+  - intros H s Hs q Hq. specialize (H s Hs). rewrite forallb_forall in H.
+    apply memp_In. apply H. exact Hq.
+  - intros H s Hs. apply forallb_forall. intros q Hq. apply memp_In. apply (H s Hs). exact Hq.
+Qed.
+
 End Main.
